@@ -10,6 +10,7 @@ import InToto.Proofs.PipeThresholds
 import InToto.Proofs.PipeSigs
 import InToto.Generated.Facts
 import InToto.Proofs.Pipeline
+import InToto.Model.StageOrder
 
 namespace InToto.C08
 open InToto InToto.Json InToto.Schema InToto.Metadata InToto.Verify InToto.SubProofs InToto.PipelineProofs
@@ -126,5 +127,11 @@ theorem recursion_bound_is_irrelevant (W : World) (ln : Bool) (ci : List Str) (f
     (h₁ : dir.depth < f₁) (h₂ : dir.depth < f₂) :
     verifyAux W ln ci f₁ md keys dir sn params rd acc = verifyAux W ln ci f₂ md keys dir sn params rd acc :=
   verifyAux_fuel_irrelevant W ln ci f₁ f₂ md keys dir sn params rd acc h₁ h₂
+
+/-- REGENERATED FACT (stage order): in both entry points sublayouts are resolved unconditionally, on
+    the links that passed the thresholds and before links are reduced and rules evaluated -/
+theorem facts_sublayouts_stage_position :
+    (StageOrder.before Generated.stagesInTotoVerify "VerifyLinkSignatureThesholds" "VerifySublayouts" && StageOrder.beforeAll Generated.stagesInTotoVerify "VerifySublayouts" ["ReduceStepsMetadata", "VerifyArtifacts", "RunInspections"]) = true ∧
+    (StageOrder.before Generated.stagesInTotoVerifyWithDirectory "VerifyLinkSignatureThesholds" "VerifySublayouts" && StageOrder.beforeAll Generated.stagesInTotoVerifyWithDirectory "VerifySublayouts" ["ReduceStepsMetadata", "VerifyArtifacts", "RunInspections"]) = true := by decide
 
 end InToto.C08
